@@ -814,16 +814,17 @@ func constValue(e ast.Expr, known map[string]*big.Int) (*big.Int, bool) {
 // limits table
 
 type encRow struct {
-	table    string // e.g. Values.Int
-	site     string // function that appends, file:line
-	guard    *big.Int
-	guardSrc string
-	konst    string // the constant the guard compares with
-	message  string // format string of the limit error
-	width    int    // bits of the narrowest operand the VM indexes the table with; -1: not indexed by an operand
-	reserved int
-	readers  []string
-	codec    string
+	table        string // e.g. Values.Int
+	site         string // function that appends, file:line
+	guard        *big.Int
+	guardSrc     string
+	konst        string // the constant the guard compares with
+	message      string // format string of the limit error
+	beforeLookup bool
+	width        int // bits of the narrowest operand the VM indexes the table with; -1: not indexed by an operand
+	reserved     int
+	readers      []string
+	codec        string
 }
 
 // tableOf recognises the tables the compiler fills for the VM: x.Types, x.Values.Int, …
@@ -893,10 +894,11 @@ func limitPanic(s ast.Stmt) (format string, ok bool) {
 }
 
 type encGuard struct {
-	count   *big.Int // largest number of entries the table can have after an append that passed the guard
-	src     string
-	konst   string
-	message string
+	beforeLookup bool     // a statement between the guard and the append can return (the de-duplication lookup)
+	count        *big.Int // largest number of entries the table can have after an append that passed the guard
+	src          string
+	konst        string
+	message      string
 }
 
 // guardBefore looks, among the statements that precede the append in its block, for
@@ -907,7 +909,7 @@ func guardBefore(p *encPkg, before []ast.Stmt, table ast.Expr, consts map[string
 	tsrc := p.src(table)
 	lenVars := map[string]bool{}
 	var found *encGuard
-	for _, s := range before {
+	for si, s := range before {
 		switch s := s.(type) {
 		case *ast.AssignStmt:
 			if len(s.Lhs) == 1 && len(s.Rhs) == 1 {
@@ -954,6 +956,17 @@ func guardBefore(p *encPkg, before []ast.Stmt, table ast.Expr, consts map[string
 			default:
 				return nil, fmt.Errorf("shape not recognised: limit guard `%s` at %s", p.src(s.Cond), p.pos(s))
 			}
+			// can the function return between this test and the append? Then the limit test runs
+			// on a path where nothing is appended: a lookup of an entry that is already in the table
+			for _, later := range before[si+1:] {
+				ast.Inspect(later, func(n ast.Node) bool {
+					if _, ok := n.(*ast.ReturnStmt); ok {
+						g.beforeLookup = true
+					}
+					_, isLit := n.(*ast.FuncLit)
+					return !isLit
+				})
+			}
 			found = g
 		}
 	}
@@ -992,6 +1005,7 @@ func appendSites(p *encPkg, fnFields, regFields map[string]bool, consts map[stri
 									r := &encRow{table: t, site: enclosingFuncName(fd) + " " + p.pos(as), width: -1}
 									if g != nil {
 										r.guard, r.guardSrc, r.konst, r.message = g.count, g.src, g.konst, g.message
+										r.beforeLookup = g.beforeLookup
 									}
 									rows = append(rows, r)
 								}
@@ -1735,9 +1749,9 @@ func genEncoding(repo string) (string, error) {
 	}
 
 	sort.SliceStable(rows, func(i, j int) bool { return rows[i].table < rows[j].table })
-	out.WriteString("/-! ### the limits table\n\nOne row per place where the compiler appends to a table of `runtime.Function` (or to the globals)\nthat the VM indexes with an instruction operand.\n`guard` = the largest number of entries the table can reach through that append: the bound of the\n`if len(T) == maxC { panic(newLimitExceededError(…)) }` found in front of the append (`none`: there\nis no such check). `width` = bits of the narrowest index expression of internal/runtime on that\ntable (`none`: no operand indexes it); `reserved` = operand values that do not address an entry. -/\n")
+	out.WriteString("/-! ### the limits table\n\nOne row per place where the compiler appends to a table of `runtime.Function` (or to the globals)\nthat the VM indexes with an instruction operand.\n`guard` = the largest number of entries the table can reach through that append: the bound of the\n`if len(T) == maxC { panic(newLimitExceededError(…)) }` found in front of the append (`none`: there\nis no such check). `width` = bits of the narrowest index expression of internal/runtime on that\ntable (`none`: no operand indexes it); `reserved` = operand values that do not address an entry;\n`guardBeforeLookup` = the function can return between the limit test and the append (the test runs\nbefore the lookup that finds an entry already in the table, so re-using an entry of a full table\nwould raise the limit error). -/\n")
 	out.WriteString("/-- how the index travels in the instruction: u8 = `int8(r)` … `uint8(x)`; u16 = encodeUint16/decodeUint16;\ni16 = encodeInt16 (or the operands of SetVar)/decodeInt16; valueIndex = encodeValueIndex/decodeValueIndex;\nu24 = encodeUint24/decodeUint24; reg = a positive int8; notOperand = no operand carries an index -/\ninductive Codec | u8 | u16 | i16 | valueIndex | u24 | reg | notOperand\n  deriving Repr, DecidableEq\n\n")
-	out.WriteString("structure Row where\n  table : String\n  site : String\n  guard : Option Nat\n  message : String\n  width : Option Nat\n  reserved : Nat\n  codec : Codec\n  deriving Repr, DecidableEq\n\n")
+	out.WriteString("structure Row where\n  table : String\n  site : String\n  guard : Option Nat\n  message : String\n  width : Option Nat\n  reserved : Nat\n  codec : Codec\n  guardBeforeLookup : Bool\n  deriving Repr, DecidableEq\n\n")
 	out.WriteString("def limits : List Row := [\n")
 	for i, r := range rows {
 		guard := "none"
@@ -1749,7 +1763,7 @@ func genEncoding(repo string) (string, error) {
 			width = fmt.Sprintf("(some %d)", r.width)
 		}
 		fmt.Fprintf(&out, "  -- guard: %s; readers: %s\n", orNone(r.guardSrc), orNone(strings.Join(r.readers, "; ")))
-		fmt.Fprintf(&out, "  { table := %q, site := %q, guard := %s, message := %q, width := %s, reserved := %d, codec := .%s }", r.table, r.site, guard, r.message, width, r.reserved, r.codec)
+		fmt.Fprintf(&out, "  { table := %q, site := %q, guard := %s, message := %q, width := %s, reserved := %d, codec := .%s, guardBeforeLookup := %v }", r.table, r.site, guard, r.message, width, r.reserved, r.codec, r.beforeLookup)
 		if i < len(rows)-1 {
 			out.WriteString(",")
 		}
